@@ -5,7 +5,7 @@ import z3
 from values import *
 from interp import run_to_end, mk_int, bool_s
 from models_coll import Seq, MapM, SetM, select
-from models_sync import ArcTok, ArcCell, NotifyM, WeakV
+from models_sync import ArcTok, ArcCell, NotifyM, WeakV, LockM
 from models_str import StrTok
 
 NS = 1_000_000_000
@@ -208,13 +208,40 @@ def sym_actor(ctx, p, n_out, n_back, deleted=None, ack_deadline=None):
     name = sym_name(ctx, p, 'SubscriptionName', 'sub')
     info = mk(ctx, 'SubscriptionInfo', name=name, ack_deadline=S(ackdl * NS, 'Duration'),
               push_config=Enum('Option', 0, {}))
+    from models_async import Leaf, OneshotTx
+    from models_sync import LockM
+    p.counter += 1
+    st.deleted_cid = p.counter
+    # the one-shot behind the deletion signal is still armed iff the subscription was not deleted yet
+    send_slot = Enum('Option', z3.If(dele, 0, 1), {1: (OneshotTx(st.deleted_cid),)})
     observer = ArcCell(Cell(mk(ctx, 'SubscriptionObserver', notify_messages_available=NotifyM('messages_available'),
-                                deleted_recv=Opaque('deleted_recv'), deleted_send=Opaque('deleted_send')), 'observer'))
+                                deleted_recv=Leaf('deleted', st.deleted_cid),
+                                deleted_send=LockM('observer.deleted_send', Cell(send_slot, 'deleted_send'))), 'observer'))
     topic_alive = p.fresh('topic_alive', 'bool')
     topic_tok = p.fresh('topic_tok')
+    # manager entry and push-registry entry of this subscription (present unless already deleted)
+    self_tok = p.fresh('self_tok')
+    other_u, other_tok = p.fresh('other_sub_used', 'bool'), p.fresh('other_sub_tok')
+    oname = sym_name(ctx, p, 'SubscriptionName', 'other')
+    p.assume(z3.Not(eq_val(oname, name)))
+    reg_used = p.fresh('registered', 'bool')
+    p.assume(z3.Implies(z3.Not(dele), reg_used))
+    p.assume(z3.Implies(dele, z3.Not(reg_used)))     # I6': a deleted subscription is no longer registered (established by delete, C11.c)
+    mstate = Cell(mk(ctx, 'State', 'subscriptions/subscription_manager',
+                     subscriptions=MapM([(reg_used, name, ArcTok(self_tok, 'Subscription')), (other_u, oname, ArcTok(other_tok, 'Subscription'))]),
+                     next_id=S(p.fresh('mgr_next_id'), 'u32')), 'mgr-state')
+    delegate = mk(ctx, 'SubscriptionManagerDelegate', state=ArcCell(Cell(LockM('subscription_manager.state', mstate))))
+    push_used = p.fresh('push_registered', 'bool')
+    p.assume(z3.Implies(dele, z3.Not(push_used)))
+    pstate = Cell(mk(ctx, 'PushSubscriptionsRegistryState',
+                     push_subscriptions=MapM([(push_used, name, Opaque('push-config')), (p.fresh('other_push', 'bool'), oname, Opaque('push-config-other'))])),
+                  'push-state')
+    registry = mk(ctx, 'PushSubscriptionsRegistry', state=ArcCell(Cell(LockM('push_registry.state', pstate))))
+    st.mstate, st.pstate, st.name, st.oname, st.other_u, st.reg_used, st.push_used = mstate, pstate, name, oname, other_u, reg_used, push_used
+    st.topic_alive, st.topic_tok = topic_alive, topic_tok
     actor = mk(ctx, 'SubscriptionActor', internal_id=S(p.fresh('internal_id'), 'u32'),
                topic=WeakV(ArcTok(topic_tok, 'Topic'), topic_alive), info=info, backlog=backlog, outstanding=tr,
-               observer=observer, push_registry=Opaque('push_registry'), delegate=Opaque('delegate'),
+               observer=observer, push_registry=registry, delegate=delegate,
                next_ack_id=ack_id(ctx, nxt), deleted=S(dele, 'bool'))
     st.actor = actor
     st.ds, st.btoks, st.blen, st.next, st.deleted, st.ackdl = ds, btoks, blen, nxt, dele, ackdl
